@@ -47,19 +47,26 @@ def run(tier, replay_file=None):
     hl, _ = gen.histories("Server", c, 7, defs=LIFE, extra_cfg={"action_constraints": ["MC_Life"]})
     R.cov["life_cycle_histories"] = len(hl)
     sets.append((hl, False))
+    # the same life cycles on a server whose instances read their scenarios from a JSON file in scenarios/ (XMILE source):
+    # whatever is cached per file or per process is shared by the instances
+    sets.append((hl, "files"))
+    sets.append((sets[0][0][:6], "files"))
     compared = 0
     for hs, bc in sets:
+        files = bc == "files"
+        bc = False if files else bc
         for hist in hs:
             obs = []
-            bad = srv_replay.replay(hist, stop=3, adapter=False, base_constants=bc, observe=obs)
+            bad = srv_replay.replay(hist, stop=3, adapter=False, base_constants=bc, observe=obs, files=files)
             R.add("traces_validated_against_impl")
             if bad:
+                bad["scenarios_from_files"] = files
                 R.violation(bad["clause"], bad)
                 continue
             for i in sorted({h["i"] for h in hist if "i" in h}):
                 sub = solo(hist, i)
                 obs1 = []
-                bad = srv_replay.replay(sub, stop=3, adapter=False, base_constants=bc, observe=obs1)
+                bad = srv_replay.replay(sub, stop=3, adapter=False, base_constants=bc, observe=obs1, files=files)
                 R.add("solo_replays")
                 if bad:
                     bad["solo_of"] = i
